@@ -18,7 +18,7 @@ RULE = ('molecule (corpus, curated, constructive; substrate groups grafted so th
         'delete_atoms on/off, automorphism filter on/off) and two-reactant Reactor templates with colliding atom numbers and '
         'spectator molecules (one-shot). oracle: a labelled-graph patch model computes the expected product of every match; '
         'products are compared atom-wise, counted, checked for unique numbers, stereo frame condition, identity template, '
-        'invariance under renumbering and reactant order. non-trivial = >= 1 match and the template deletes or adds an atom; '
+        'cage substrates with ring hetero atoms; exhaustive mode (one_shot=False) of the single-pattern reactor template: only template-named elements may change. invariance under renumbering and reactant order. non-trivial = >= 1 match and the template deletes or adds an atom; '
         'distinct by (template, substrate string)')
 ASSUMPTIONS = ['the set of matches itself is C07\'s subject: the model patches the matches the library reports and checks their count',
                'model details fixed by the property text: one product per match; unmatched atoms keep all attributes incl. stored '
